@@ -462,6 +462,9 @@ impl<L> Client<L> {
 	}
 
 	async fn run_future_until_timeout<T>(&self, fut: impl Future<Output = Result<T, Error>>) -> Result<T, Error> {
+		#[cfg(jsonrpsee_verif)]
+		use crate::verif::timer as futures_timer;
+
 		tokio::pin!(fut);
 
 		match futures_util::future::select(fut, futures_timer::Delay::new(self.request_timeout)).await {
